@@ -11,7 +11,7 @@ from gcv import (ToolError, WORK, SPEC, ROOT, log, memo, run_tlc, cfg_text, tla_
 # ============================================================================= core engine
 # GcHeap.tla / MC_GcHeap.tla  ->  behaviours  ->  harness replay  ->  GcMonitor trace validation
 
-CORE_PROPS = ["C01", "C02", "C03", "C04", "C05", "C06", "C07", "C08", "C11"]
+CORE_PROPS = ["C01", "C02", "C03", "C04", "C05", "C06", "C07", "C08", "C11", "C14", "C20"]
 
 # rules whose antecedent must have been true at least once for the run to count (vacuity control)
 MUST_HIT = {
@@ -24,6 +24,8 @@ MUST_HIT = {
     "C07": ["C07.r1", "C07.r2", "C07.r3"],
     "C08": ["C08.r1", "C08.r2", "C08.r3"],
     "C11": ["C11.r1", "C01.r1", "C02.r1", "C04.r4"],
+    "C14": ["C14.r1", "C14.r2", "C14.r4", "C01.r1", "C02.r1"],
+    "C20": ["C20.r1", "C20.r2", "C01.r1", "C04.r4"],
 }
 
 # which monitor rules decide which property (a rule named Cxx.* always decides Cxx)
@@ -41,15 +43,17 @@ MODEL_INVS = {
     "C07": ["Structural", "C07_NoDeadReachable", "C07_DeadExact", "C07_ResurrectHolds"],
     "C08": ["Structural", "C08_PhaseProtocol"],
     "C11": ["Structural", "PropertyInvs (all of C01-C07, over the fault-extended Next)"],
+    "C14": ["C14_SlotsWF", "C14_HandleResolves", "C14_KeepsAlive", "C01_NoLostReachable", "C02_Exact", "Structural"],
+    "C20": ["C20_Frame", "Invs (per-arena safety)"],
 }
 
 ALL_INVS = ["Structural", "PropertyInvs"]
 ALL_PROPS = ["C03_MutatorFrame", "C06_BookkeepingOnly", "C08_PhaseProtocol"]
 
 
-def heap_constants(n_obj, kinds=("N",), budgets=(1, 2), grans=("P1", "P2"), max_ops=0, emit="none",
+def heap_constants(n_obj=2, kinds=("N",), budgets=(1, 2), grans=("P1", "P2"), max_ops=0, emit="none",
                    vias=("mutate_root",), max_kids=2, max_weak=1, barrier_only=False, finalize=True, drop=True,
-                   many=False, fault_ats=()):
+                   many=False, fault_ats=(), max_handles=0, weak=True, unlink=True):
     objs = ", ".join(f"o{i + 1}" for i in range(n_obj))
     return {
         "Obj": "{" + objs + "}", "NoObj": "NoObj", "MaxKids": max_kids, "MaxWeak": max_weak,
@@ -57,7 +61,8 @@ def heap_constants(n_obj, kinds=("N",), budgets=(1, 2), grans=("P1", "P2"), max_
         "MaxOps": max_ops, "Emit": f'"{emit}"', "RootViaSet": tla_set(vias),
         "WithBarrierOnly": "TRUE" if barrier_only else "FALSE", "WithFinalize": "TRUE" if finalize else "FALSE",
         "WithDrop": "TRUE" if drop else "FALSE", "WithMany": "TRUE" if many else "FALSE",
-        "FaultAts": tla_set(fault_ats, quote=False),
+        "FaultAts": tla_set(fault_ats, quote=False), "MaxHandles": max_handles,
+        "WithWeak": "TRUE" if weak else "FALSE", "WithUnlink": "TRUE" if unlink else "FALSE",
     }
 
 
@@ -75,18 +80,26 @@ def model_error(r):
         raise ToolError(f"TLC run {r['name']} failed: {r['error']} (see {r['out']})")
 
 
+def two_arenas_cfg(max_ops):
+    consts = {"Obj": "{o1, o2}", "NoObj": "NoObj", "MaxKids": 2, "MaxWeak": 1, "Kinds": '{"N"}', "Budgets": "{1}",
+              "Grans": '{"P1"}', "MaxHandles": 0, "MaxOps": max_ops, "Emit": '"states"'}
+    return cfg_text(spec="Spec", constants=consts, invariants=["Invs", "EmitStates"], properties=["C20_Frame"],
+                    constraints=["Bounded"], symmetry="Perms", view="vw")
+
+
 def core_models(tier, d):
     """The model-only half: TLC on the concrete specification, emitting behaviours.  Depends on
     the specification only (never on /repo), so it is memoised under a hash of spec/."""
     tlc_runs = []
     beh_files = []
     workers = 7
+    quick = tier == "quick"
 
-    def run(name, constants, emit, per_class, timeout):
-        r = run_tlc("MC_GcHeap", heap_cfg(constants, emit), name, d, workers=workers, timeout=timeout, xmx="10g")
+    def run(name, module, cfg, per_class, limit, timeout):
+        r = run_tlc(module, cfg, name, d, workers=workers, timeout=timeout, xmx="10g")
         model_error(r)
         f = os.path.join(d, f"beh_{name}.ndjson")
-        n, ncls = extract_behaviours(r["out"], f, per_class=per_class)
+        n, ncls = extract_behaviours(r["out"], f, per_class=per_class, limit=limit)
         r["behaviours"], r["classes"] = n, ncls
         os.remove(r["out"])
         tlc_runs.append(r)
@@ -94,24 +107,31 @@ def core_models(tier, d):
 
     ALLK = ("N", "S", "L", "O", "F")
     VIAS = ("mutate_root", "map_root", "try_map_root")
+
+    def hc(emit, **kw):
+        return heap_cfg(heap_constants(emit=emit, **kw), emit)
+
     jobs = [
         # (1) N2 complete, all invariants, witness behaviours per transition class
-        ("n2_classes", heap_constants(2, emit="classes", many=True), "classes", 3, 1500),
+        ("n2_classes", "MC_GcHeap", hc("classes", n_obj=2, many=True), 3, None, 1500),
         # (2) every object kind / storage path of C06, behaviours of bounded length
-        ("n2_kinds", heap_constants(2, kinds=ALLK, max_ops=5 if tier == "quick" else 7, emit="classes",
-                                    barrier_only=True, vias=VIAS), "classes", 2, 3000),
+        ("n2_kinds", "MC_GcHeap", hc("classes", n_obj=2, kinds=ALLK, max_ops=5 if quick else 7, barrier_only=True, vias=VIAS),
+         2, None, 3000),
+        # (3) fault injection (C11): trace panics at the k-th trace call after j children, panicking
+        #     callbacks, failing constructors and root maps
+        ("n2_faults", "MC_GcHeap", hc("classes", n_obj=2, fault_ats=(0, 1), vias=VIAS, max_ops=6 if quick else 8), 2, None, 3000),
+        # (4) dynamic root sets (C14): a set, two nodes, two handles; stash / clone / drop / slot reuse
+        ("n3_dyn", "MC_GcHeap", hc("classes", n_obj=3, max_handles=2, finalize=False, budgets=(1,), grans=("P1",),
+                                   weak=False, unlink=False, max_ops=6 if quick else 8), 2, None, 3000),
+        # (5) two arenas on one thread (C20): interleavings of a reduced menu
+        ("two_arenas", "TwoArenas", two_arenas_cfg(4 if quick else 5), None, 12000 if quick else 200000, 3000),
     ]
-    # (3) fault injection (C11): trace panics at the k-th trace call after j children, panicking
-    #     callbacks, failing constructors and root maps
-    jobs.append(("n2_faults", heap_constants(2, emit="classes", fault_ats=(0, 1), vias=VIAS,
-                                             max_ops=6 if tier == "quick" else 8), "classes", 2, 3000))
-    if tier == "thorough":
-        # (4) N2 complete: one behaviour per distinct state (state cover)
-        jobs.append(("n2_states", heap_constants(2, emit="states"), "states", None, 3000))
-        # (5) N3, every behaviour of at most 6 operations, class witnesses
-        jobs.append(("n3_k6", heap_constants(3, emit="classes", max_ops=6, many=True), "classes", 3, 3600))
+    if not quick:
+        # (6) N2 complete: one behaviour per distinct state (state cover)
+        jobs.append(("n2_states", "MC_GcHeap", hc("states", n_obj=2), None, None, 3000))
+        # (7) N3, every behaviour of at most 6 operations, class witnesses
+        jobs.append(("n3_k6", "MC_GcHeap", hc("classes", n_obj=3, max_ops=6, many=True), 3, None, 3600))
     par = 2
-    workers = max(3, (NCPU - 2) // par)
     from concurrent.futures import ThreadPoolExecutor
     with ThreadPoolExecutor(max_workers=par) as ex:
         list(ex.map(lambda j: run(*j), jobs))
@@ -121,8 +141,23 @@ def core_models(tier, d):
     return {"tlc": tlc_runs, "beh_files": beh_files}
 
 
+MODEL_FILES = ["GcHeap.tla", "MC_GcHeap.tla", "MC_Pacing.tla", "TwoArenas.tla"]
+
+
 def spec_key(extra=""):
-    return gcv._hash_paths([SPEC, os.path.join(ROOT, "runner")])[:20] + extra
+    """Key of the model-only runs: the specification modules they read and the runner code that
+    configures them (never /repo)."""
+    paths = [os.path.join(SPEC, f) for f in MODEL_FILES] + [os.path.join(ROOT, "runner", f) for f in ("gcv.py", "engines.py")]
+    return gcv._hash_paths(paths)[:20] + extra
+
+
+def core_key(extra=""):
+    """Key of the implementation-facing runs: /repo's sources, the harness, the specifications."""
+    paths = [os.path.join(gcv.REPO, p) for p in ("src", "derive/src", "derive/Cargo.toml", "Cargo.toml", "Cargo.lock")]
+    paths += [os.path.join(SPEC, f) for f in MODEL_FILES + ["GcMonitor.tla", "GcMonitorTrace.tla"]]
+    paths += [os.path.join(gcv.HARN, "src"), os.path.join(gcv.HARN, "Cargo.toml"), os.path.join(ROOT, "known_findings.json")]
+    paths += [os.path.join(ROOT, "runner", f) for f in ("gcv.py", "engines.py")]
+    return gcv._hash_paths(paths)[:20] + extra
 
 
 def core_engine(tier, d):
@@ -225,13 +260,19 @@ def match_finding(prop, v, findings):
 
 def check_core(prop, tier):
     t0 = time.time()
-    key = tree_key(f"-{tier}-{seed()}")
+    key = core_key(f"-{tier}-{seed()}")
     res, d = memo("core-" + tier, key, lambda dd: core_engine(tier, dd))
     m = merged_replays(res)
     if m["crashes"]:
         raise ToolError(f"harness crashed while replaying: {m['crashes'][:1]}")
     decides = [prop] + ALSO.get(prop, [])
     viols = [v for v in m["viol"] if v["prop"] in decides]
+    if prop == "C14":
+        # keeps alive / becomes collectable: the C01 / C02 / C05 rules on the dynamic-root executions
+        viols += [v for v in m["viol"] if v["prop"] in ("C01", "C02", "C05") and v["source"].startswith("n3_dyn")]
+    if prop == "C20":
+        # each arena's C01-C05 guarantees hold regardless of what is done to the other
+        viols += [v for v in m["viol"] if v["prop"] in ("C01", "C02", "C03", "C04", "C05") and v["source"].startswith("two_arenas")]
     if prop == "C11":
         # "after the unwind is caught the arena continues to satisfy C01-C05": the same rules, on
         # the executions that contain injected faults
@@ -246,9 +287,15 @@ def check_core(prop, tier):
     states = sum(r["distinct"] for r in res["tlc"])
     trans = sum(r["generated"] for r in res["tlc"])
     accepted = m["runs"] - len({(v["source"], v["beh"]) for v in m["viol"]})
+    nontrivial = count_nontrivial(res["beh_files"])
     cov = {
         "states": states, "transitions": trans,
         "traces_validated_against_impl": max(accepted, 0),
+        "evaluations": m["runs"], "distinct_nontrivial": nontrivial,
+        "rule": "behaviours are emitted by TLC (one witness per transition class / per distinct state of the bounded model) and "
+                "replayed through the public API; a behaviour is counted as non-trivial when it contains at least one mutator "
+                "operation AND at least one collection call or arena drop; behaviours are distinct by construction (distinct "
+                "class or state) and are counted once however many epilogues / build profiles replay them",
         "samples": res["samples"][:4],
         "exhaustive": False,
         "tlc_runs": [{k: r.get(k) for k in ("name", "distinct", "generated", "depth", "complete", "wall_s", "behaviours", "classes")}
@@ -261,8 +308,36 @@ def check_core(prop, tier):
         "shared_run_memoised": res.get("memoised", False), "shared_run_wall_s": res["wall_s"],
         "checker_cmd": "tlc MC_GcHeap.tla (model) ; gcv-harness replay ; tlc GcMonitorTrace.tla (trace validation)",
     }
-    write_evidence(prop, tier, "model_checking", cov, CORE_ASSUMPTIONS, time.time() - t0, len(viols))
+    level = "exploration" if prop == "C20" else "model_checking"
+    write_evidence(prop, tier, level, cov, CORE_ASSUMPTIONS, time.time() - t0, len(viols))
     return 1 if new else 0
+
+
+def count_nontrivial(beh_files):
+    """Distinct behaviours (over all emitted files) with at least one mutator operation and at
+    least one collection call / drop."""
+    seen = set()
+    n = 0
+    coll = {"call", "start_sweeping", "finalize", "drop_arena"}
+    for f in sorted(set(beh_files.values())):
+        try:
+            fh = open(f)
+        except OSError:
+            continue
+        with fh:
+            for line in fh:
+                try:
+                    ops = json.loads(line).get("ops", [])
+                except json.JSONDecodeError:
+                    continue
+                key = hash(json.dumps(ops, sort_keys=True))
+                if key in seen:
+                    continue
+                seen.add(key)
+                names = {o.get("op") for o in ops}
+                if names & coll and names - coll:
+                    n += 1
+    return n
 
 
 CORE_ASSUMPTIONS = [
@@ -290,7 +365,7 @@ PACING_PROPS = ["C09_CollectDebtPays", "C09_StopOrPaid", "C09_StopTheWorld", "C0
 def pacing_cfg(pq, n=2, max_ops=6, adjusts=(16, 48), emit="states", kinds=("N", "S")):
     objs = ", ".join(f"o{i + 1}" for i in range(n))
     consts = {"Obj": "{" + objs + "}", "NoObj": "NoObj", "MaxKids": 2, "MaxWeak": 1, "Kinds": tla_set(kinds),
-              "Budgets": "{1}", "Grans": '{"P1"}', "SF": pq[0], "MS": pq[1], "MF": pq[2], "TF": pq[3], "KF": pq[4],
+              "Budgets": "{1}", "Grans": '{"P1"}', "MaxHandles": 0, "SF": pq[0], "MS": pq[1], "MF": pq[2], "TF": pq[3], "KF": pq[4],
               "DF": pq[5], "FF": pq[6], "MaxOps": max_ops, "Adjusts": tla_set(adjusts, quote=False), "Emit": f'"{emit}"'}
     return cfg_text(spec="Spec", constants=consts, invariants=["Invs"] + (["EmitStates"] if emit == "states" else []),
                     properties=PACING_PROPS, constraints=["Bounded"], symmetry="Perms", view="vw")
@@ -412,7 +487,7 @@ PACING_INVS = {
 
 def check_pacing(prop, tier):
     t0 = time.time()
-    key = tree_key(f"-{tier}-{seed()}")
+    key = core_key(f"-{tier}-{seed()}")
     res, d = memo("pacing-" + tier, key, lambda dd: pacing_engine(tier, dd))
     m = merged_replays(res)
     if m["crashes"]:
@@ -489,12 +564,16 @@ def dispatch(argv):
 def setup():
     import subprocess
     build_harness("debug")
+    build_harness("release")
     for f in sorted(os.listdir(SPEC)):
         if f.endswith(".tla"):
             p = subprocess.run(["tla-sany", f], cwd=SPEC, stdout=subprocess.PIPE, stderr=subprocess.STDOUT, text=True)
             if p.returncode != 0 or "*** Errors" in p.stdout or "Fatal" in p.stdout:
                 print(p.stdout[-2000:])
                 raise ToolError(f"SANY rejects {f}")
+    # the model-only runs depend on the specification alone: do them once here (memoised)
+    memo("model-quick", spec_key(f"-{seed()}"), lambda dd: core_models("quick", dd))
+    memo("pmodel-quick", spec_key(f"-{seed()}"), lambda dd: pacing_models("quick", dd))
     print("setup ok")
     return 0
 
